@@ -642,15 +642,16 @@ def sub_operators(op, prefix="", seen=None, depth=0):
             yield from sub_operators(arg, f"{prefix}.{k}", seen, depth + 1)
 
 
-def cache_entries(op):
-    """List of (path, entry name) over op and its sub-operators, memoize dict and ad-hoc attributes."""
+def cache_entries(op, with_ids=False):
+    """List of (path, entry name) over op and its sub-operators, memoize dict and ad-hoc attributes
+    (with_ids: (path, name, id of the stored value), so that an overwritten entry is seen as a new one)."""
     out = []
     for path, o in sub_operators(op):
-        for k in list(getattr(o, "_memoize_cache", {}).keys()):
-            out.append((path, cache_key_name(k)))
+        for k, v in list(getattr(o, "_memoize_cache", {}).items()):
+            out.append((path, cache_key_name(k), id(v)) if with_ids else (path, cache_key_name(k)))
         for attr in ADHOC_CACHE_ATTRS:
             if getattr(o, attr, None) is not None and attr in getattr(o, "__dict__", {}):
-                out.append((path, "@" + attr))
+                out.append((path, "@" + attr, id(getattr(o, attr))) if with_ids else (path, "@" + attr))
     return out
 
 
